@@ -161,6 +161,14 @@ func (e *Engine) checkProperty(prop string, o runOpts) int {
 			}
 		}
 	}
+	for i, l := range e.Lemmas {
+		for _, t := range l.Tags {
+			if t == prop {
+				r := e.lemmaResult(i)
+				done[r.Key] = r
+			}
+		}
+	}
 	// discharge relevant goals
 	type job struct {
 		res *FuncResult
@@ -224,7 +232,7 @@ func (e *Engine) checkProperty(prop string, o runOpts) int {
 		rn := 0
 		for c, gs := range byCtx {
 			for _, g := range gs {
-				if g.Status == "unknown" && !g.ExpectSat {
+				if g.Status == "unknown" && !g.ExpectSat && matchKnown(kfs, prop, g.Name) == nil {
 					rn++
 					go func(c *Ctx, g *Goal) {
 						rsem <- struct{}{}
@@ -477,14 +485,25 @@ func (e *Engine) writeReplay(prop string, res *FuncResult, g *Goal, o runOpts) r
 		"solver_output": truncate(g.Output, 4000),
 	}
 	confirmed := false
-	if g.Status == "failed" {
-		w, ok := e.concretise(res, g, o)
+	relaxed := g.Status == "unknown" && !g.ExpectSat && res.X != nil && res.Fn != nil
+	if g.Status == "failed" || relaxed {
+		qo := qopt{}
+		if relaxed {
+			// undecided obligation: look for a candidate input in the quantifier-free relaxation of the
+			// query; it counts only if the replay on the real code confirms it
+			qo.Relaxed = true
+			rp["candidate_from"] = "quantifier-free relaxation of the undecided obligation (not a verifier model; counts only when confirmed on the real code)"
+		}
+		w, ok := e.concretiseOpt(res, g, o, qo)
 		if ok {
 			rp["witness"] = w
 			out, conf := e.runWitness(w, g)
+			if relaxed && g.Kind != "post" {
+				conf = conf && g.Kind == "safety"
+			}
 			if !conf && g.Kind == "post" && strings.Contains(out, "GVC-DONE") {
 				var why string
-				conf, why = e.confirmPost(res, g, w, out, o)
+				conf, why = e.confirmPostOpt(res, g, w, out, o, relaxed)
 				rp["confirmation"] = why
 			}
 			if !conf && (g.Kind == "inv-keep" || g.Kind == "inv-init") && res.Fn != nil && g.Func == fnKey(res.Fn) && strings.Contains(out, "GVC-DONE") {
@@ -494,7 +513,7 @@ func (e *Engine) writeReplay(prop string, res *FuncResult, g *Goal, o runOpts) r
 					if pg.Kind != "post" || (pg.Func != fnKey(res.Fn) && pg.Func != res.Key) {
 						continue
 					}
-					ok, why := e.confirmPost(res, pg, w, out, o)
+					ok, why := e.confirmPostOpt(res, pg, w, out, o, relaxed)
 					if os.Getenv("GVC_DEBUG") != "" {
 						fmt.Println("confirm via post", pg.Name, ok, why)
 					}
